@@ -78,7 +78,8 @@ def gen(rng, i, tier):
     sf = []
     if v is not None:
         sf.append(["VERSION", v])
-    sf.append(["BPMS", rng.choice(["0.000=120.000", "0.000=100,\n4.000=50.5,\n9=200", "0=60"])])
+    sf.append(["BPMS", rng.choice(["0.000=120.000", "0.000=100,\n4.000=50.5,\n9=200", "0=60",
+                                   "0.000=100,\n0.000=200", "0.000=60,\n0.010=240,\n4=120", "0=90,\n4=180,\n4.000=45"])])     # rows sharing a beat (or a tick) are all kept
     for key in ("OFFSET", "STOPS", "DELAYS", "WARPS", "FREEZES"):
         st = rng.choice(["absent", "empty", "value"])
         if key == "FREEZES" and (kind != "SM" or rng.random() < 0.6):
@@ -94,7 +95,10 @@ def gen(rng, i, tier):
         for key in TKEYS:
             st = rng.choice(["absent"] * 4 + ["empty", "value"])
             if st != "absent":
-                chart.append([key, "" if st == "empty" else NONEMPTY[key]])
+                val = NONEMPTY[key]
+                if key == "BPMS" and rng.random() < 0.3:
+                    val = rng.choice(["0.000=100,\n0.000=200", "0.000=60,\n0.010=240,\n4=120", "2=90,\n2=30"])
+                chart.append([key, "" if st == "empty" else val])
         rng.shuffle(chart)
         for key in ("OFFSET", "DISPLAYBPM"):
             st = rng.choice(["absent", "empty", "value"])
@@ -209,6 +213,18 @@ def agree(io, mo):
     return io == mo
 
 
+def ev_rows(s):
+    """'beat=value' rows read independently of the library: every row kept, in order, beats snapped to the 1/48 tick"""
+    if s is None or s == "":
+        return []
+    out = []
+    for row in s.split(","):
+        b, v = row.strip().split("=")
+        beat = Fraction(round(Fraction(Decimal(b.strip())) * 48), 48)
+        out.append([[beat.numerator, beat.denominator], dobs(Decimal(v.strip()))])
+    return out
+
+
 def oracle(c, o):
     """the rule, restated: chart iff SSC simfile >= 0.7 and SSC chart with a non-empty timing value; then everything from that source"""
     if "__harness_exc__" in o:
@@ -227,8 +243,8 @@ def oracle(c, o):
     if o["td"][0] == "ok":
         stops_key = "FREEZES" if (not want_chart and c["kind"] == "SM" and "STOPS" not in src and "FREEZES" in src) else "STOPS"
         try:
-            want = [bv(BeatValues.from_str(src.get("BPMS"))), bv(BeatValues.from_str(src.get(stops_key))), bv(BeatValues.from_str(src.get("DELAYS"))),
-                    bv(BeatValues.from_str(src.get("WARPS"))), dobs(Decimal(src.get("OFFSET") or 0))]
+            want = [ev_rows(src.get("BPMS")), ev_rows(src.get(stops_key)), ev_rows(src.get("DELAYS")),
+                    ev_rows(src.get("WARPS")), dobs(Decimal(src.get("OFFSET") or 0))]
         except Exception:
             return None
         if o["td"][1] != want:
@@ -248,7 +264,7 @@ def oracle(c, o):
             except Exception:
                 want = None
         if want is None:
-            vals = [b.value for b in BeatValues.from_str(src.get("BPMS"))]
+            vals = [Decimal(row.strip().split("=")[1].strip()) for row in (src.get("BPMS") or "").split(",")]
             want = ["static", dobs(vals[0])] if len(vals) == 1 else ["range", dobs(min(vals)), dobs(max(vals))]
         got = o["displaybpm"][1]
         if got != want:
